@@ -4,7 +4,12 @@ import random
 import subprocess
 import tempfile
 
+import sys
+
+sys.path.insert(0, os.path.dirname(__file__))
 import batchcheck
+import c09
+import c13
 import common
 import gen_prog
 import pipeline
@@ -61,7 +66,23 @@ def run(res, b, tier, seed):
             if rng.random() < 0.3:
                 src += rng.choice(BUILTIN_SNIPPETS[:6]).replace("x :=", "bx :=").replace("y :=", "by :=").replace("a :=", "ba :=").replace("b :=", "bb :=").replace("n :=", "bn :=").replace("s []int", "bs []int").replace("len(s)", "len(bs)").replace("so, se, code", "bso, bse, bcode").replace("print(so, code)", "print(bso, bcode)").replace("print(x)", "print(bx)").replace("print(y)", "print(by)").replace("copy(b, a)", "copy(bb, ba)").replace("print(n)", "print(bn)")
             progs.append(src)
+    # programs the parser may or may not accept: every builtin / operator position filled from an expression zoo, alone in a block
+    stmts = c13.ZOO + ["itoa(i)", "len(s)", "exists(s)", "read(s)", "input()", 'input("p")', "copy(xs, xs)", "qi()", "qv()", '@ls("a")', 'write(s, s)', "s[0]", "!b"]
+    for st in stmts:
+        for form in ("if b {\n\t%s\n}\n", "if b {\n\tprint(1)\n} else if b {\n\t%s\n} else {\n\t%s\n}\n", "for b {\n\t%s\n\tbreak\n}\n", "func g9() {\n\t%s\n}\ng9()\n",
+                     "switch i {\ncase 1:\n\t%s\ndefault:\n\t%s\n}\n", "for i9 := 0; i9 < 1; i9++ {\n\t%s\n}\n"):
+            progs.append(c13.ZOO_PRELUDE + form.replace("%s", st))
+    for src in c13.builtin_near_misses(rng, 150 if quick else 4000):
+        progs.append(src)
+    # identifiers that are reserved words of the shells (known finding reserved-identifiers-not-rejected)
+    reserved_progs = ["func %s() {\n\tprint(1)\n}\n%s()\n" % (w, w) for w in ("fi", "done", "then", "esac", "do", "elif")]
+    progs += reserved_progs
     cases = [pipeline.Case("p%d" % i, {"main.tsh": p.encode()}, meta=dict(src=p)) for i, p in enumerate(progs)]
+    # multi-file programs: import graphs with aliases, diamonds, top-level code in imported files
+    for i in range(60 if quick else 1200):
+        gc = c09.gen_case(rng, i)
+        cases.append(pipeline.Case("m%d" % i, gc.files, meta=dict(multipath=bool(gc.meta.get("multipath")),
+                                                               src="\n".join("// file %s\n%s" % (k, v.decode("utf-8", "replace")) for k, v in gc.files.items()))))
     pipeline.run_pipe(b, cases, "sw")
     pipeline.model_full(b, cases)
     pipeline.model_batch(b, cases)
@@ -88,7 +109,7 @@ def run(res, b, tier, seed):
     res.coverage.update(dict(
         evaluations=len(cases),
         distinct_nontrivial=len({c.meta["src"] for c in cases}),
-        rule="repo test programs, builtin snippets (input, read, write, exists, program calls, copy, empty blocks, nested loops with break/continue) and "
+        rule="repo test programs, import graphs over several files, every statement position filled from an expression zoo (accepted ones are checked like any other), builtin snippets (input, read, write, exists, program calls, copy, empty blocks, nested loops with break/continue) and "
              "generated whole-language programs (deep nesting, many functions); bash: `bash -n` on every emitted script; batch: structural predicates on the "
              "emitted text (balanced parentheses outside quotes, every goto/call target defined, no label twice, helper routine present iff used, "
              "break/continue/loop-back jumps refer to the innermost enclosing loop); distinct = distinct programs",
@@ -99,6 +120,10 @@ def run(res, b, tier, seed):
     ))
     real = []
     for c, target, what in fails:
+        if c.meta["src"] in reserved_progs and res.known_finding("reserved-identifiers-not-rejected", what):
+            continue
+        if c.meta.get("multipath") and " times (lines" in what and res.known_finding("multipath-import-runs-twice", what):
+            continue
         real.append((c, target, what))
     seen = set()
     for c, target, what in real:
